@@ -555,6 +555,7 @@ func execStateMethods(c *Ctx, which map[string]bool) {
 					continue
 				}
 				na, nh := 0, 0
+				ia, ih := -1, -1
 				for _, a := range adds {
 					k, isC := a.Args[0].IsConstInt()
 					if !isC || k != 1 {
@@ -563,14 +564,20 @@ func execStateMethods(c *Ctx, which map[string]bool) {
 					switch loadedField(a.Recv) {
 					case "attempts":
 						na++
+						ia = a.Idx
 					case "hedges":
 						nh++
+						ih = a.Idx
 					default:
 						bad("a hedge copy may only bump attempts and hedges")
 					}
 				}
 				if na != 1 || nh != 1 {
 					bad(fmt.Sprintf("a hedge must count as exactly one more attempt and one more hedge (attempts+%d, hedges+%d)", na, nh))
+				} else if ih < ia {
+					// concurrent readers (the attempts already running) must never see more hedges than attempts account for:
+					// Attempts ≥ 1 + Retries + Hedges at every instant, so IsFirstAttempt is never true once a hedge is counted
+					bad("the hedge is counted before the attempt: a concurrent reader would see Attempts < 1 + Retries + Hedges")
 				}
 				if h := ev.LoadField(p.State, cc, "isHedge"); h == nil || !isTrue(h) {
 					bad("a hedge copy must be marked IsHedge")
